@@ -7,6 +7,8 @@
 //!   ulharness features         the feature set this binary was built with
 
 mod gen;
+#[cfg(feature = "serde")]
+mod nhr;
 mod ops;
 mod proto;
 mod render;
